@@ -304,6 +304,15 @@ fn drive_ops(s: &mut Session, rng: &mut Rng, thorough: bool) {
         };
         let extreme = r % 3 == 2;
         s.start(fs);
+        if r % 6 == 5 {
+            // the largest increment the register holds, ticked on and on with nobody taking the latch
+            s.set_frequency(*rng.pick(&[f32::INFINITY, f32::MAX, 4.0e9 * fs]));
+            for _ in 0..150 {
+                s.tick();
+            }
+            s.take();
+            s.take();
+        }
         let n = if thorough { 400 } else { 160 };
         let mut i = 0;
         while i < n && s.alive {
